@@ -1,5 +1,5 @@
 (** C40 — monitor requests never race with a running simulation.  Theorems only. *)
-From Akita Require Import Lib.Base Lib.Lts C40.Model C40.Proofs.
+From Akita Require Import Lib.Base Lib.Lts C40.Model C40.Proofs C40.Proofs2.
 Local Open Scope N_scope.
 
 (** Parallel engine: for every handler program, every number of events, every
@@ -13,6 +13,14 @@ Theorem c40_inspection_safe_parallel : forall prog nev reqs o,
   s_raced (run (step true prog) o (init nev reqs)) = false.
 Proof. exact parallel_safe. Qed.
 Print Assumptions c40_inspection_safe_parallel.
+
+(** On BOTH engines the requests pause / continue / state / port-buffer levels are
+    race-free for every handler program and every interleaving. *)
+Theorem c40_basic_requests_safe : forall par prog nev reqs o,
+  forallb basic_req reqs = true ->
+  s_raced (run (step par prog) o (init nev reqs)) = false.
+Proof. exact basic_requests_safe. Qed.
+Print Assumptions c40_basic_requests_safe.
 
 (** /api/now on the serial engine reads SerialEngine.time while dispatchNext writes it. *)
 Theorem c40_now_races :
